@@ -33,6 +33,7 @@ OPS = [
     "addself",
     "addsame",
     "scale",
+    "scale1",
     "imul",
     "applyX0",
     "applyNlast",
@@ -233,9 +234,9 @@ def run_history(n, dim, init, precision, cap, history, seed, mode, cache):
             live.append([res, None, f"step{step}:{op}"])
             cur = len(live) - 1
             obj = res
-        elif op in ("scale", "imul"):
-            c = 0.5 - 0.3j
-            if op == "scale":
+        elif op in ("scale", "imul", "scale1"):
+            c = 1.0 if op == "scale1" else 0.5 - 0.3j  # exactly one: the product is still a NEW state that must not share tensors with the operand
+            if op in ("scale", "scale1"):
                 res = c * obj
             else:
                 res = obj
